@@ -270,9 +270,90 @@ pub fn from_hex(s: &str) -> Option<f64> {
                 hex.push_str(".p0")
             }
 
-            hexf_parse::parse_hexf64(hex.as_str(), false).ok()
+            hexf_parse::parse_hexf64(hex.as_str(), false)
+                .ok()
+                .or_else(|| hex_to_f64_rounded(hex.as_str()))
         }
     }
+}
+
+/// The value of `[-]0x<hex digits>[.<hex digits>]p<decimal exponent>` rounded to the nearest
+/// double (ties to even), as `float.fromhex` computes it for inputs that are not exactly
+/// representable (excess precision, underflow). `None` if malformed or too large for a double.
+fn hex_to_f64_rounded(s: &str) -> Option<f64> {
+    let (negative, s) = match s.strip_prefix('-') {
+        Some(rest) => (true, rest),
+        None => (false, s),
+    };
+    let (mantissa, exponent) = s.strip_prefix("0x")?.split_once('p')?;
+    let (exp_negative, exp_digits) = match exponent.strip_prefix('-') {
+        Some(rest) => (true, rest),
+        None => (false, exponent.strip_prefix('+').unwrap_or(exponent)),
+    };
+    if exp_digits.is_empty() || !exp_digits.bytes().all(|b| b.is_ascii_digit()) {
+        return None;
+    }
+    const EXP_LIMIT: i64 = 1 << 40;
+    let exp_abs = exp_digits
+        .bytes()
+        .fold(0i64, |acc, b| (acc * 10 + i64::from(b - b'0')).min(EXP_LIMIT));
+    let (int, frac) = mantissa.split_once('.').unwrap_or((mantissa, ""));
+    if int.is_empty() && frac.is_empty() {
+        return None;
+    }
+    // value = m * 2^e2, `sticky` records non-zero digits that did not fit into m
+    let mut m: u128 = 0;
+    let mut e2 = if exp_negative { -exp_abs } else { exp_abs };
+    let mut sticky = false;
+    for (i, c) in int.chars().chain(frac.chars()).enumerate() {
+        let digit = u128::from(c.to_digit(16)?);
+        let in_fraction = i >= int.len();
+        if m >> 120 == 0 {
+            m = (m << 4) | digit;
+            if in_fraction {
+                e2 -= 4;
+            }
+        } else {
+            sticky |= digit != 0;
+            if !in_fraction {
+                e2 += 4;
+            }
+        }
+    }
+    let zero = if negative { -0.0 } else { 0.0 };
+    if m == 0 {
+        return Some(zero);
+    }
+    let bits = i64::from(128 - m.leading_zeros());
+    let top = e2 + bits - 1; // exponent of the leading bit
+    if top > 1023 {
+        return None;
+    }
+    // 53 significant bits for a normal result, fewer for a subnormal one
+    let keep = if top >= -1022 { 53 } else { 53 - (-1022 - top) };
+    if keep < 0 {
+        return Some(zero);
+    }
+    let drop = bits - keep;
+    let mut q = if drop <= 0 { m << -drop } else if drop >= 128 { 0 } else { m >> drop };
+    if drop > 0 {
+        let half = 1u128 << (drop - 1);
+        let rem = if drop >= 128 { m } else { m & ((1u128 << drop) - 1) };
+        if rem > half || (rem == half && (sticky || q & 1 == 1)) {
+            q += 1;
+        }
+    }
+    let scale = top - keep + 1; // result = q * 2^scale, scale >= -1074
+    let unit = if scale >= -1022 {
+        f64::from_bits(((scale + 1023) as u64) << 52)
+    } else {
+        f64::from_bits(1u64 << (scale + 1074))
+    };
+    let value = q as f64 * unit;
+    if value.is_infinite() {
+        return None;
+    }
+    Some(if negative { -value } else { value })
 }
 
 pub fn to_hex(value: f64) -> String {
